@@ -50,3 +50,28 @@ class Sink(Command):
         for c in kwargs["L"]:
             c.result
         return None
+
+
+class Num(Command):
+    """Produces a plain number."""
+    inputs = {"V": params.NumberParameter()}
+    output = params.NumberParameter()
+
+    def execute(self, **kwargs):
+        EXEC_LOG.append(self.result_name)
+        return kwargs["V"]
+
+
+class TypedOp(Command):
+    """Consumers whose result parameters declare an output type that *could* convert the value it validates."""
+    inputs = {
+        "S": params.ResultParameter(params.StringParameter(), required=False),
+        "N": params.ResultParameter(params.NumberParameter(), required=False),
+        "LS": params.ListParameter(params.ResultParameter(params.StringParameter()), required=False),
+        "Any": params.ResultParameter(required=False),
+    }
+    output = params.DataParameter()
+
+    def execute(self, **kwargs):
+        EXEC_LOG.append(self.result_name)
+        return ("typed", self.result_name, tuple((k, _val(kwargs[k])) for k in sorted(kwargs) if k != "Metadata"))
